@@ -226,7 +226,7 @@ func (w *World) gaugesOracle(prop string, converse bool) []Violation {
 		switch w.cfg.Backing {
 		case "map":
 			if !mapsEqual(w.ll, w.model().KV) {
-				out = append(out, Violation{Prop: prop, Sig: "zero-gauges-but-lower-level-stale|map|" + w.gaugeTrigger(),
+				out = append(out, Violation{Prop: prop, Sig: "zero-gauges-but-lower-level-stale|map|any",
 					Msg: fmt.Sprintf("CurDirtyOps/Bytes/Segments are all zero but the lower level holds %s, reference %s", fmtMap(w.ll), fmtMap(w.model().KV))})
 			}
 		case "store":
@@ -236,8 +236,8 @@ func (w *World) gaugesOracle(prop string, converse bool) []Violation {
 				ss.Close()
 				if class, detail := DiffDumps(exp, got, "Store.Snapshot"); class != "" {
 					sig := "zero-gauges-but-store-stale:" + class + "|store|any"
-					if w.gaugeTrigger() != "any" {
-						sig = "zero-gauges-but-store-stale|store|" + w.gaugeTrigger()
+					if tr := w.gaugeTrigger(exp, got); tr != "any" {
+						sig = "zero-gauges-but-store-stale|store|" + tr
 					}
 					out = append(out, Violation{Prop: prop, Sig: sig,
 						Msg: fmt.Sprintf("CurDirtyOps/Bytes/Segments are all zero but the store's own snapshot differs from the reference: %s\n  expected %s\n  observed %s\n  in gate=%v sections=%v", detail, exp, got, w.inGate, w.Heights())})
@@ -289,12 +289,31 @@ func opsCount(b *BatchSpec) int {
 	return n
 }
 
-// gaugeTrigger narrows C20 signatures: "nothing-countable-dirty" when no dirty section (top, mid, base,
-// child stacks included) holds a single operation - the only unpersisted changes are child collections
-// created empty or deleted, for which the gauges (operations, bytes, segments) have nothing to count.
-func (w *World) gaugeTrigger() string {
-	if w.coll != nil && !w.closedColl && moss.VerifDirtyEmpty(w.coll) {
-		return "nothing-countable-dirty"
+// structuralOnly reports whether `got` differs from the reference dump `ref` only in the existence or
+// emptiness of child collections: a child the reference lacks (deleted), a child the reference has empty
+// (created empty, or deleted and recreated) - with everything else equal.
+func structuralOnly(ref, got *DumpT) bool {
+	if len(got.Errs) > 0 || fmt.Sprint(ref.Iter) != fmt.Sprint(got.Iter) || fmt.Sprint(ref.Get) != fmt.Sprint(got.Get) {
+		return false
+	}
+	for name, rc := range ref.Kids {
+		if len(rc.Iter) == 0 && len(rc.Kids) == 0 {
+			continue // empty in the reference: whatever the lower level has (nothing yet, or the deleted incarnation)
+		}
+		gc, ok := got.Kids[name]
+		if !ok || !structuralOnly(rc, gc) {
+			return false
+		}
+	}
+	return true // children that only `got` has were deleted in the reference
+}
+
+// gaugeTrigger narrows the signature of the open C20 finding K1: "only-child-structure" when the lower level
+// differs from the reference only by child collections that were created empty or deleted - changes that put
+// no operation into any dirty section, so the gauges have nothing to count.
+func (w *World) gaugeTrigger(ref, got *DumpT) string {
+	if structuralOnly(ref, got) {
+		return "only-child-structure"
 	}
 	return "any"
 }
@@ -387,7 +406,7 @@ func kid(name string, b *BatchSpec) map[string]*BatchSpec { return map[string]*B
 
 var c11Alpha = []*BatchSpec{
 	{Kids: kid("A", &BatchSpec{Ops: ops("S:a")})},
-	{Kids: map[string]*BatchSpec{"A": {Ops: ops("S:a")}, "B": {Ops: ops("S:a")}}},
+	{Kids: map[string]*BatchSpec{"A": {Ops: ops("S:b")}, "B": {Ops: ops("S:a")}}},
 	{Kids: kid("A", &BatchSpec{Kids: kid("X", &BatchSpec{Ops: ops("S:a")})})},
 	{DelKids: []string{"A"}},
 	{Ops: ops("S:a"), DelKids: []string{"A"}},
@@ -403,6 +422,7 @@ var c04Alpha = []*BatchSpec{
 	{Ops: ops("S:")},
 	{Kids: kid("A", &BatchSpec{Ops: ops("S:a")})},
 	{DelKids: []string{"A"}},
+	{Kids: kid("A", &BatchSpec{Ops: ops("S:b")})}, // a different key, so that a recreated A is distinguishable from its predecessor
 }
 
 func storeConfigs(tier string, mergeOp bool) []Config {
@@ -438,8 +458,9 @@ func init() {
 				{Backing: "store", MinMergePct: 0.01, Concern: 2},
 				{Backing: "store", MinMergePct: 100, Concern: 1, CachePersisted: true},
 			},
-			Steps: []string{"M", "Pb", "Pe", "S+", "CS+", "I+", "SS+", "H-", "CC", "CS", "R"}, Devs: []string{"m1", "p1"},
-			MaxB: 3, MaxD: 8, MaxK: 1, MaxH: 2, MaxR: 1, Deadline: tierDeadline(tier),
+			Steps: []string{"M", "Pb", "Pe", "S+", "CS+", "I+", "IX", "SS+", "H-", "CC", "CS", "R"}, Devs: []string{"m1", "p1"},
+			Roots: [][]string{{"B0", "M", "Pb", "Pe", "B2", "M", "Pb", "Pe", "B0"}, {"B3", "M", "Pb", "Pe", "R"}},
+			MaxB:  3, MaxD: 8, MaxK: 1, MaxH: 2, MaxR: 1, Deadline: tierDeadline(tier),
 			Note: "oracle: every open snapshot / child snapshot / iterator is re-read after every later step and must show what it showed when taken"}
 		if tier == "thorough" {
 			sp.MaxB, sp.MaxD, sp.MaxK, sp.MaxH = 4, 11, 2, 3
@@ -457,12 +478,17 @@ func init() {
 	g1Specs["C04"] = func(tier string) *G1Spec {
 		sp := &G1Spec{Prop: "C04", Alpha: c04Alpha, Configs: storeConfigs(tier, false),
 			Steps: []string{"M", "MA", "Pb", "Pe", "R"}, Devs: []string{"m1", "p1"},
-			MaxB: 3, MaxD: 9, MaxK: 1, MaxR: 1, Deadline: tierDeadline(tier),
+			Roots: [][]string{{"B4", "M", "Pb", "Pe", "R"}, {"B0", "M", "Pb", "Pe", "B2", "M", "Pb", "Pe"}},
+			MaxB:  3, MaxD: 9, MaxK: 1, MaxR: 1, Deadline: tierDeadline(tier),
 			Note: "oracle after each close+reopen: reopened content == what the store exposed right before closing == reference content after some prefix p of the batches; p = n when nothing was dirty at close time"}
 		if tier == "thorough" {
 			sp.MaxB, sp.MaxD, sp.MaxR = 4, 12, 2
 		}
-		sp.Check = func(w *World, path []string) []Violation { return withProp(w.viols, "C04") }
+		sp.Check = func(w *World, path []string) []Violation {
+			// the reopen oracle runs inside every R step; the snapshot comparison in every state keeps the
+			// reference model honest between reopens
+			return append(withProp(w.viols, "C04"), w.snapshotOracle("C04")...)
+		}
 		return sp
 	}
 	engines["C04"] = checkG1
@@ -471,7 +497,8 @@ func init() {
 	g1Specs["C08"] = func(tier string) *G1Spec {
 		sp := &G1Spec{Prop: "C08", Alpha: c08Alpha, Configs: baseConfigs(tier, true),
 			Steps: []string{"M", "MA", "Pb", "Pe", "R"}, Devs: []string{"m1", "p1"},
-			MaxB: 3, MaxD: 9, MaxK: 1, MaxR: 1, Deadline: tierDeadline(tier),
+			Roots: [][]string{{"B0", "M", "Pb", "Pe"}},
+			MaxB:  3, MaxD: 9, MaxK: 1, MaxR: 1, Deadline: tierDeadline(tier),
 			Note: "order-sensitive operator existing+\":\"+operand (nil existing rendered ^); oracle: snapshot dump == model fold at every state; map backing: lower-level content is a prefix state"}
 		if tier == "thorough" {
 			sp.MaxB, sp.MaxD, sp.MaxK, sp.MaxR = 4, 12, 2, 1
@@ -504,6 +531,10 @@ func init() {
 	g1Specs["C10"] = func(tier string) *G1Spec {
 		sp := g1Specs["C08"](tier)
 		sp.Prop = "C10"
+		sp.Alpha = []*BatchSpec{
+			{Ops: ops("S:a")}, {Ops: ops("D:a")}, {Ops: ops("M:a")}, {Ops: ops("M:a==")},
+			{Ops: ops("S:a", "M:b")}, {Ops: ops("E:a", "M:")},
+		}
 		sp.Note = "oracle at every state: Collection.Get == Snapshot.Get == iteration entry == model for every probe key, NoCopyValue off/on; terminal phase: copied values intact after closing everything"
 		sp.Check = func(w *World, path []string) []Violation {
 			out := append(withProp(w.viols, "C10"), w.readPathsOracle("C10")...)
@@ -529,7 +560,8 @@ func init() {
 		}
 		sp := &G1Spec{Prop: "C11", Alpha: c11Alpha, Configs: cfgs,
 			Steps: []string{"M", "MA", "Pb", "Pe", "R"}, Devs: []string{"m1", "p1"},
-			MaxB: 3, MaxD: 9, MaxK: 1, MaxR: 1, Deadline: tierDeadline(tier),
+			Roots: [][]string{{"B0", "M", "Pb", "Pe", "R"}},
+			MaxB:  3, MaxD: 9, MaxK: 1, MaxR: 1, Deadline: tierDeadline(tier),
 			Note: "tree alphabet: children A, B and A/X; oracle: recursive dump (names at every level + contents) == reference tree at every state and after every reopen"}
 		if tier == "thorough" {
 			sp.MaxB, sp.MaxD, sp.MaxR = 4, 12, 2
@@ -551,7 +583,8 @@ func init() {
 		}
 		sp := &G1Spec{Prop: "C13", Alpha: c08Alpha, Configs: cfgs,
 			Steps: []string{"M", "MA", "Pb", "Pe", "Pf"}, Devs: []string{"m1", "p1"},
-			MaxB: 3, MaxD: 9, MaxK: 1, Deadline: tierDeadline(tier),
+			Roots: [][]string{{"B0", "M", "Pb", "Pe"}},
+			MaxB:  3, MaxD: 9, MaxK: 1, Deadline: tierDeadline(tier),
 			Note: "map lower level applying each `higher` by the documented protocol; Pe/Pf = update succeeds / fails; oracles: lower level is a non-shrinking prefix state, overlay == model, failed update re-offered, drained => equal"}
 		if tier == "thorough" {
 			sp.MaxB, sp.MaxD, sp.MaxK = 4, 12, 2
@@ -582,6 +615,7 @@ func init() {
 			{Backing: "map", MinMergePct: 100, CachePersisted: true},
 		}
 		sp.Steps = []string{"M", "MA", "Pb", "Pe"}
+		sp.Roots = [][]string{{"B0", "M", "Pb", "Pe"}}
 		sp.MaxR = 0
 		sp.Note = "oracle at every state without a call in flight: all three dirty gauges zero => store snapshot (or map lower level) == reference and a reopened copy of the directory == reference; converse: <=4 merger/persister alternations make the gauges zero"
 		sp.Check = func(w *World, path []string) []Violation {
